@@ -135,9 +135,12 @@ type Finding struct {
 	Reach  []string          `json:"reach,omitempty"`
 	Cross  string            `json:"cross,omitempty"`
 	Sched  []int             `json:"schedule,omitempty"`
+	UF     map[string]string `json:"uf,omitempty"`
 }
 
 type Engine struct {
+	ufApps      []ufApp
+	ufSeen      map[int]bool
 	Prog        *ssa.Program
 	Solver      *Solver
 	Base        map[int]Value // heap shared by all states (globals after package init)
